@@ -17,6 +17,7 @@ CONSTANTS
   BurstSizes = {1, 2}
   PskIds = {"k1", "k2"}
   PskValues = {"none", "a"}
+  JitterChoices = {99999}
   Deviations = {"F12", "F14"}
   MaxApps = 0
   MaxLen = 4
